@@ -158,6 +158,27 @@ def body():
                     rs.check_colouring(spj, dfail)
                 except Exception as exc:
                     dfail("exception", "%s: %s" % (type(exc).__name__, str(exc)[:160]))
+    # ---- directed: two disjoint closed components as domains 1 and 2, the normals of one whole component swapped (a connected closed grid
+    # with only part of its normals swapped is rejected by the BC / RBC constructors): barycentric children carry the multiplier of their parent
+    Vo = np.array([[1, 0, 0], [-1, 0, 0], [0, 2, 0], [0, -2, 0], [0, 0, 3], [0, 0, -3]], dtype=float).T
+    Eo = np.array([[0, 2, 4], [0, 5, 2], [0, 4, 3], [0, 3, 5], [1, 4, 2], [1, 2, 5], [1, 3, 4], [1, 5, 3]]).T
+    g2c = api.Grid(np.hstack([Vo, Vo + np.array([[7.0], [0.0], [0.0]])]), np.hstack([Eo, Eo + 6]).astype("uint32"), np.array([1] * 8 + [2] * 8, dtype="uint32"))
+    for swapped in ([2], [1]):
+        for kind in ("BC", "RBC"):
+            label = "%s on two disjoint octahedra, swapped_normals=%s" % (kind, swapped)
+
+            def cfail(aspect, detail, label=label, kind=kind):
+                chk.violation("%s:%s:components" % (kind, aspect), "%s: %s" % (label, detail), {"swapped": swapped})
+
+            try:
+                spc = api.function_space(g2c, kind, 0, swapped_normals=swapped)
+                chk.count(label, True)
+                want = np.repeat(np.where(np.asarray(g2c.domain_indices) == swapped[0], -1, 1), 6)
+                if not np.array_equal(np.asarray(spc.normal_multipliers), want):
+                    cfail("normal_multipliers", "the barycentric children do not carry the normal multipliers of their parents")
+                rd.check_bary_conformity(spc, cfail, label, kind)
+            except Exception as exc:
+                cfail("exception", "%s: %s" % (type(exc).__name__, str(exc)[:160]))
     chk.cov["rule"] = ("one obligation per terminal state of SpaceModel (mesh x selection x options x kind); RWG obligations are "
                        "replayed for RWG and SNC, P1/DP0/RWG selections also for DUAL0/DUAL1/BC/RBC; non-trivial = support of >= 2 elements")
     chk.cov["exhaustive"] = True
